@@ -2,6 +2,7 @@ package main
 
 import (
 	"go/token"
+	"go/types"
 	"sort"
 	"strings"
 
@@ -397,4 +398,136 @@ func matchersAllAnyRule(o *Ob) {
 		}
 	}
 	o.MinSites(2)
+}
+
+// utf8OperatorRule: the UTF-8 parser reads the four operators like the classic one and like the printer writes
+// them.  Two tables, joined by the token kinds: the lexer's scanOperator ('!' '=' → not-equals, '!' '~' →
+// not-matches, '=' '~' → matches, '=' → equals, anything else an error) and parseMatcher's translation of the token
+// kind into the match type handed to NewMatcher, together with the unquoted name and value tokens.
+func utf8OperatorRule(o *Ob) {
+	e := o.E
+	kind := func(name string) string {
+		for path, pkg := range e.SSAPkgs {
+			if strings.HasSuffix(path, "/matcher/parse") {
+				if c, ok := pkg.Members[name].(*ssa.NamedConst); ok {
+					return itoa(int(c.Value.Int64()))
+				}
+			}
+		}
+		o.Fail("kind|"+name, "token kind "+name+" not found", nil)
+		return "?"
+	}
+	eq, ne, re, nre := kind("tokenEquals"), kind("tokenNotEquals"), kind("tokenMatches"), kind("tokenNotMatches")
+	sc := o.Fn("(*am/matcher/parse.lexer).scanOperator")
+	o.Site(fnFirst(sc), "lexer: operator table")
+	acc := func(s string) LitM { return L(`(*am/matcher/parse.lexer).accept(recv, "`+s+`")`, true) }
+	emit := func(k string) [][]string {
+		return [][]string{Vals("(*am/matcher/parse.lexer).emit(recv, " + k + ")"), Vals("nil")}
+	}
+	bang, is, tilde := acc("!"), acc("="), acc("~")
+	o.Table(sc, "scan", []Row{
+		{Name: "!=", Assume: A(bang, is), Ret: emit(ne)},
+		{Name: "!~", Assume: A(bang, is.Neg(), tilde), Ret: emit(nre)},
+		{Name: "=~", Assume: A(bang.Neg(), is, tilde), Ret: emit(re)},
+		{Name: "=", Assume: A(bang.Neg(), is, tilde.Neg()), Ret: emit(eq)},
+	})
+	for _, row := range []struct {
+		name string
+		as   []LitM
+	}{{"! alone", A(bang, is.Neg(), tilde.Neg())}, {"neither ! nor =", A(bang.Neg(), is.Neg())}} {
+		r := (&Walk{Fn: sc, Cut: e.CutContradicting(row.as...)}).FromEntry()
+		rets := r.Returns()
+		o.Check(len(rets) >= 1, "scan-error-exit|"+row.name, "scanOperator has no exit for '"+row.name+"'", fnFirst(sc))
+		for _, ret := range rets {
+			for _, v := range e.ValStrs(sc, e.RetVals(r, ret, 1)) {
+				o.Check(v != "nil", "scan-error|"+row.name, "scanOperator accepts '"+row.name+"' as an operator", ret)
+			}
+		}
+	}
+	// parser: token kind → match type
+	pm := o.Fn("(*am/matcher/parse.parser).parseMatcher")
+	nm := o.One(e.Calls(pm, "am/pkg/labels.NewMatcher"), "construct", "parseMatcher must build the matcher with labels.NewMatcher", pm)
+	o.Site(nm, "parser: kind → match type")
+	kv := "&t:am/matcher/parse.token.kind"
+	// the translation may be a constant table indexed by the kind instead of a switch
+	table := map[string]string{}
+	if lk := lookupOf(nm.Common().Args[0]); lk != nil {
+		if strings.HasSuffix(e.X(pm, lk.Index), ".kind") {
+			for path := range e.SSAPkgs {
+				if !strings.HasSuffix(path, "/matcher/parse") {
+					continue
+				}
+				ini := o.Fn("am/matcher/parse.init")
+				for _, in := range AllInstrs(ini) {
+					if mu, ok := in.(*ssa.MapUpdate); ok && types.Identical(mu.Map.Type(), lk.X.Type()) {
+						table[e.X(ini, mu.Key)] = e.X(ini, mu.Value)
+						o.Site(mu, "kind "+e.X(ini, mu.Key)+" ↦ type "+e.X(ini, mu.Value))
+					}
+				}
+			}
+		}
+	}
+	for _, m := range []struct{ k, op, ty string }{{eq, "=", "0"}, {ne, "!=", "1"}, {re, "=~", "2"}, {nre, "!~", "3"}} {
+		if len(table) > 0 {
+			o.Check(table[m.k] == m.ty, "type|"+m.op, "the "+m.op+" token must become match type "+m.ty+", the table says "+table[m.k], nm)
+			continue
+		}
+		lit := L("("+kv+" == "+m.k+")", true)
+		if !e.litKnown(pm, lit) {
+			o.Fail("type|"+m.op, "parseMatcher no longer distinguishes the "+m.op+" token", nm)
+			continue
+		}
+		var others []LitM
+		for _, k2 := range []string{eq, ne, re, nre} {
+			if k2 != m.k {
+				others = append(others, L("("+kv+" == "+k2+")", false))
+			}
+		}
+		r := (&Walk{Fn: pm, Cut: e.CutContradicting(append(others, lit)...)}).FromEntry()
+		if !o.Check(r.Has(nm), "type-reach|"+m.op, "the "+m.op+" token never reaches the construction of the matcher", nm) {
+			continue
+		}
+		vs := e.XsAt(r, nm, nm.Common().Args[0])
+		o.Check(len(vs) == 1 && vs[0] == m.ty, "type|"+m.op, "the "+m.op+" token must become match type "+m.ty+", becomes "+strings.Join(vs, " | "), nm)
+	}
+	// name and value: the unquoted first and third token
+	uq := e.Calls(pm, "(am/matcher/parse.token).unquote")
+	if o.Check(len(uq) == 2, "unquote", "name and value must each be unquoted once", nm) {
+		a1, a2 := nm.Common().Args[1], nm.Common().Args[2]
+		x1, ok1 := a1.(*ssa.Extract)
+		x2, ok2 := a2.(*ssa.Extract)
+		first, second := uq[0], uq[1]
+		if InstrDominates(second, first) {
+			first, second = second, first
+		}
+		o.Check(ok1 && ok2 && x1.Tuple == first.(ssa.Value) && x2.Tuple == second.(ssa.Value) && x1.Index == 0 && x2.Index == 0, "name-value", "the matcher must be built from the unquoted name token and the unquoted value token, in this order", nm)
+	}
+	// kept
+	kept := false
+	for _, st := range e.StoresToField(pm, "am/matcher/parse.parser", "matchers") {
+		_, parts := e.AppendParts(st.Val)
+		for _, p := range parts {
+			if x, ok := p.V.(*ssa.Extract); ok && x.Tuple == nm.(ssa.Value) && x.Index == 0 {
+				kept = true
+				o.Check(len((&Walk{Fn: pm, Cut: e.CutContradicting(L("("+e.X(pm, nm.(*ssa.Call))+"#1 == nil)", true)), Barrier: IsInstr(st)}).After(nm).Returns()) == 0, "kept-skip", "a parsed matcher can be dropped", st)
+			}
+		}
+	}
+	o.Check(kept, "kept", "the parsed matcher is not added to the result", nm)
+}
+
+func init() {
+	reg("C16", "C16.10", "T6,T9", "UTF-8 parser operator tables: scanOperator maps '!=' '!~' '=~' '=' to their token kinds and rejects anything else; parseMatcher maps each kind to its match type and builds the matcher from the unquoted name and value tokens; every parsed matcher is kept", func(o *Ob) {
+		utf8OperatorRule(o)
+		o.MinSites(2)
+	})
+}
+
+// lookupOf: v is the value (or the comma-ok value part) of a map lookup.
+func lookupOf(v ssa.Value) *ssa.Lookup {
+	if x, ok := v.(*ssa.Extract); ok && x.Index == 0 {
+		v = x.Tuple
+	}
+	lk, _ := v.(*ssa.Lookup)
+	return lk
 }
